@@ -80,7 +80,7 @@ def analyse_axial(repo, col, rule_roles):
     if lst is None:
         raise AnalysisError("compute_axial_conductances no longer returns a concatenation of blocks")
     for block in lst.args:
-        alts = block.args if block.op == "phi" else [block]
+        alts = block.args if block.op == "phi" else ([block.args[1], block.args[2]] if block.op == "ifexp" else [block])
         for alt in alts:
             # X = vmap(f)(...) / params["capacitance"][idx]   or  vmap(f)(...) [*= const]
             t = alt
